@@ -50,7 +50,7 @@ Lemma sem_cases c ng st f o f' r : sem c ng st f o = (f', r) ->
   (~ (o = OMkdir /\ r = ROk) /\ ~ (o = ORemove PDir /\ r = ROk) /\ same_dir f f').
 Proof.
   unfold sem. intros H.
-  destruct o as [|p|p|p|h one|one| |p]; try destruct p; destruct f as [d|]; simpl in H;
+  destruct o as [|p|p|p|p|h one|one| |p]; try destruct p; destruct f as [d|]; simpl in H;
     repeat match type of H with context [if ?b then _ else _] => destruct b eqn:? end;
     inversion H; subst; clear H;
     try (left; repeat split; reflexivity);
@@ -196,7 +196,8 @@ Ltac row :=
 
 Lemma ROW_rm_with clean p : ROW clean -> ROW (rm_with clean p).
 Proof.
-  intros Hc w0 w Hw Hle. unfold rm_with.
+  intros Hc w0 w Hw Hle0. unfold rm_with.
+  apply RO_step; [discriminate|discriminate|assumption|]. intros r0 w00 Hle.
   apply RO_use; [auto with ro|assumption|]. intros e w1 Hle1. destruct (negb e); [apply RO_ret; assumption|].
   apply RO_use; [auto with ro|assumption|]. intros d w2 Hle2. destruct d as [isdir|]; [|apply RO_ret; assumption].
   apply RO_use; [auto with ro|assumption|]. intros em w3 Hle3. destruct em as [isempty|]; [|apply RO_ret; assumption].
@@ -286,4 +287,279 @@ Qed.
 Definition Qof (a : api) : ghost -> ares -> Prop := if is_acquire a then Qacq else fun _ _ => True.
 
 Lemma safe_prog_of_acquire a ovr w : is_acquire a = true -> Safe (Qof a) w (prog_of a ovr).
-Proof. destruct a; simpl; try discriminate; intros _; apply safe_try_lock. Qed.
+Proof. intros H. destruct a; try discriminate H; unfold Qof, prog_of; cbn [is_acquire]; apply safe_try_lock. Qed.
+
+Lemma safe_prog_of_unlock ovr w : win w = true -> Safe (Qof Unlock) w (prog_of Unlock ovr).
+Proof. intros H. unfold Qof. cbn [is_acquire]. exact (safe_unlock w H). Qed.
+
+(* ---------- the interleaving semantics, in relational form ---------- *)
+Local Opaque prog_of.
+
+Definition with_cur (x : cst) (c : option (api * prog ares)) : cst :=
+  {| ovr := ovr x; cur := c; holds := holds x; alive := alive x; eng := eng x; hbs := hbs x; gh := gh x |}.
+
+Lemma finish_props x a v x2 ret : finish x a v = (x2, ret) ->
+  eng x2 = eng x /\ alive x2 = alive x /\ gh x2 = gh x /\ ovr x2 = ovr x /\
+  (holds x2 = holds x \/ (holds x2 = true /\ is_acquire a = true /\ v = AOk)) /\
+  (cur x2 = None \/ (cur x2 = Some (a, prog_of a (ovr x)) /\ is_acquire a = true)).
+Proof.
+  unfold finish. intros H.
+  destruct a, v; inversion H; subst; clear H; simpl; repeat split; auto.
+Qed.
+
+Inductive mstep (s : state) (c : nat) (stale : bool) (s' : state) : Prop :=
+| MStep x a o k f' r x2 ret
+    (Hx : nth_error (cs s) c = Some x)
+    (Hcur : cur x = Some (a, Do o k))
+    (Hsem : sem c (ngen s) stale (fs s) o = (f', r))
+    (Hx2 : let x1 := {| ovr := ovr x; cur := Some (a, k r); holds := holds x; alive := alive x;
+                        eng := (match o, r with OMkdir, ROk => Some (ngen s) | _, _ => eng x end);
+                        hbs := hbs x; gh := upd (gh x) o r |} in
+           (x2, ret) = match k r with Ret v => finish x1 a v | _ => (x1, None) end)
+    (Hfs : fs s' = f')
+    (Hbad : bad s' = bad s || ((match o, r with ORemove PDir, ROk => true | _, _ => false end) && live_owner (fs s) (cs s)))
+    (Hcs : cs s' = set_nth (cs s) c x2).
+
+Lemma exec_main_inv s c stale s' ob : exec s (IStep c None stale) = Some (s', ob) -> mstep s c stale s'.
+Proof.
+  unfold exec. destruct (nth_error (cs s) c) as [x|] eqn:Hx; [|discriminate].
+  destruct (cur x) as [[a p]|] eqn:Hcur; [|discriminate]. destruct p as [v|o k]; [discriminate|].
+  destruct (sem c (ngen s) stale (fs s) o) as [f' r] eqn:Hsem.
+  match goal with |- context [match k r with Ret v => finish ?X a v | Do _ _ => (?Y, None) end] =>
+    destruct (match k r with Ret v => finish X a v | Do _ _ => (Y, None) end) as [x2 ret] eqn:Hx2 end.
+  intros H. inversion H; subst; clear H.
+  eapply MStep with (x2 := x2) (ret := ret); eauto; simpl.
+  all: try (rewrite <- Hx2; destruct o; try reflexivity; destruct r; reflexivity).
+  all: try (destruct o as [|[]|?|?|?|? ?|?| |?]; try reflexivity; destruct r; reflexivity).
+Qed.
+
+(* what a step of the API thread does to the contender that takes it *)
+Lemma mstep_x2 s c stale s' : mstep s c stale s' ->
+  exists x a o k r x2, nth_error (cs s) c = Some x /\ cur x = Some (a, Do o k) /\
+    sem c (ngen s) stale (fs s) o = (fs s', r) /\ cs s' = set_nth (cs s) c x2 /\
+    bad s' = bad s || ((match o, r with ORemove PDir, ROk => true | _, _ => false end) && live_owner (fs s) (cs s)) /\
+    alive x2 = alive x /\ ovr x2 = ovr x /\ gh x2 = upd (gh x) o r /\
+    eng x2 = (match o, r with OMkdir, ROk => Some (ngen s) | _, _ => eng x end) /\
+    (holds x2 = holds x \/ (holds x2 = true /\ is_acquire a = true /\ k r = Ret AOk)) /\
+    (cur x2 = None \/ (cur x2 = Some (a, k r)) \/ (cur x2 = Some (a, prog_of a (ovr x)) /\ is_acquire a = true)).
+Proof.
+  intros [x a o k f' r x2 ret Hx Hcur Hsem Hx2 Hfs Hbad Hcs].
+  exists x, a, o, k, r, x2. subst f'. repeat (split; [assumption|]).
+  cbv zeta in Hx2. destruct (k r) as [v|o' k'] eqn:Hk.
+  - symmetry in Hx2. apply finish_props in Hx2. simpl in Hx2.
+    destruct Hx2 as (He & Ha & Hg & Ho & Hh & Hc). repeat (split; [assumption|]). split.
+    + destruct Hh as [Hh|(Hh & Hacq & Hv)]; [left; exact Hh|right; subst v; auto].
+    + destruct Hc as [Hc|[Hc Hacq]]; [left; exact Hc|right; right; auto].
+  - inversion Hx2; subst; simpl. repeat (split; [reflexivity|]). split; [left; reflexivity|right; left; reflexivity].
+Qed.
+
+(* every other item changes one contender record and at most the heartbeat file *)
+Definition item_c (it : item) : nat := match it with ICall c _ | IStep c _ _ | IKill c => c end.
+
+Lemma exec_other_inv s it s' ob : exec s it = Some (s', ob) ->
+  (forall c st, it <> IStep c None st) ->
+  exists x x2, nth_error (cs s) (item_c it) = Some x /\ cs s' = set_nth (cs s) (item_c it) x2 /\
+    bad s' = bad s /\ same_dir (fs s) (fs s') /\ ovr x2 = ovr x /\
+    ( (exists a, it = ICall (item_c it) a /\ is_acquire a = true /\ cur x = None /\ holds x = false /\ alive x = true /\
+          alive x2 = true /\ eng x2 = eng x /\ holds x2 = false /\ cur x2 = Some (a, prog_of a (ovr x)) /\
+          gh x2 = {| mk := false; win := false |})
+    \/ (it = ICall (item_c it) Unlock /\ cur x = None /\ holds x = true /\ alive x = true /\
+          alive x2 = true /\ eng x2 = None /\ holds x2 = false /\ cur x2 = Some (Unlock, prog_of Unlock (ovr x)) /\
+          gh x2 = {| mk := false; win := true |})
+    \/ (it = IKill (item_c it) /\ cur x = None /\ alive x2 = false /\ eng x2 = eng x /\ holds x2 = holds x /\ cur x2 = None /\ gh x2 = gh x)
+    \/ (alive x2 = alive x /\ eng x2 = eng x /\ holds x2 = holds x /\ cur x2 = cur x /\ gh x2 = gh x) ).
+Proof.
+  assert (forall f, same_dir f f) as Hsd by (intros [d|]; simpl; auto).
+  Ltac pre5 Hsd := eexists; eexists; (split; [eassumption || reflexivity|]); (split; [reflexivity|]); (split; [reflexivity|]);
+        (split; [simpl; auto|]); (split; [reflexivity|]).
+  destruct it as [c a|c [k|] st|c]; simpl; intros H Hnot.
+  - destruct (nth_error (cs s) c) as [x|] eqn:Hx; [|discriminate].
+    destruct (cur x) eqn:Hcur; [discriminate|]. destruct (alive x) eqn:Hal; [|discriminate]. simpl in H.
+    destruct (is_acquire a) eqn:Hacq.
+    + destruct (holds x) eqn:Hh; [discriminate|]. inversion H; subst; clear H. simpl. pre5 Hsd.
+      left. exists a. simpl. repeat split; auto.
+    + destruct (holds x) eqn:Hh; [|discriminate]. simpl in H. inversion H; subst; clear H. simpl.
+      destruct a; try discriminate Hacq. pre5 Hsd.
+      right; left. simpl. repeat split; auto.
+  - destruct (nth_error (cs s) c) as [x|] eqn:Hx; [|discriminate].
+    destruct (alive x) eqn:Hal; [|discriminate]. simpl in H.
+    destruct (nth_error (hbs x) k) as [h|] eqn:Hh; [|discriminate].
+    destruct (pc h); [| |discriminate].
+    + destruct (fs s) as [d|] eqn:Hfs; simpl in H; inversion H; subst; clear H; simpl;
+      pre5 Hsd; right; right; right; simpl; auto.
+    + destruct (fs s) as [d|] eqn:Hfs; simpl in H; [destruct (hbf d)|]; inversion H; subst; clear H; simpl;
+      pre5 Hsd; right; right; right; simpl; auto.
+  - exfalso. eapply Hnot; reflexivity.
+  - destruct (nth_error (cs s) c) as [x|] eqn:Hx; [|discriminate].
+    destruct (cur x) eqn:Hcur; [discriminate|].
+    destruct (alive x && holds x) eqn:E; [|discriminate]. inversion H; subst; clear H. simpl. pre5 Hsd.
+    right; right; left. simpl. repeat split; auto.
+Qed.
+
+(* ---------- invariants of EVERY run (no restriction on the schedule) ---------- *)
+Definition excl (s : state) : Prop :=
+  forall c x g, nth_error (cs s) c = Some x -> alive x = true -> eng x = Some g ->
+    exists d, fs s = Some d /\ gen d = g /\ owner d = c.
+Definition holder_eng (s : state) : Prop :=
+  forall c x, nth_error (cs s) c = Some x -> holds x = true -> eng x <> None.
+Definition progs_safe (s : state) : Prop :=
+  forall c x a p, nth_error (cs s) c = Some x -> cur x = Some (a, p) ->
+    Safe (Qof a) (gh x) p /\ (is_acquire a = true -> mk (gh x) = true -> eng x <> None).
+Definition Inv (s : state) : Prop := (bad s = false -> excl s) /\ holder_eng s /\ progs_safe s.
+
+Lemma mk_upd w o r : mk (upd w o r) = true -> (o = OMkdir /\ r = ROk) \/ mk w = true.
+Proof. destruct o, r; simpl; auto; destruct stale; simpl; auto. Qed.
+
+Lemma eng_not_created (o : op) (r : res) (A : Type) (a b : A) :
+  ~ (o = OMkdir /\ r = ROk) -> match o, r with OMkdir, ROk => a | _, _ => b end = b.
+Proof. intros H. destruct o; try reflexivity. destruct r; try reflexivity. exfalso; auto. Qed.
+
+Lemma live_owner_true f l c x g d :
+  f = Some d -> gen d = g -> owner d = c -> nth_error l c = Some x -> alive x = true -> eng x = Some g ->
+  live_owner f l = true.
+Proof. intros -> <- <- Hx Ha He. simpl. rewrite Hx, Ha, He. simpl. apply Nat.eqb_refl. Qed.
+
+Lemma Safe_Do_inv {A} (Q : ghost -> A -> Prop) w o k :
+  Safe Q w (Do o k) -> (o = ORemove PDir -> win w = true) /\ forall r, Safe Q (upd w o r) (k r).
+Proof. intros H. inversion H; subst. auto. Qed.
+
+Lemma Inv_mstep s c st s' : Inv s -> mstep s c st s' -> Inv s'.
+Proof.
+  intros (Hex & Hhe & Hps) Hm.
+  apply mstep_x2 in Hm as (x & a & o & k & r & x2 & Hx & Hcur & Hsem & Hcs & Hbad & Hal & Hov & Hgh & Heng & Hho & Hcu).
+  destruct (Hps c x a (Do o k) Hx Hcur) as [Hsafe Hmk]. apply Safe_Do_inv in Hsafe as [Hguard Hsafe].
+  assert (mk (gh x2) = true -> is_acquire a = true -> eng x2 <> None) as Hmk2.
+  { rewrite Hgh, Heng. intros H Hacq. apply mk_upd in H as [[-> ->]|H]; [discriminate|].
+    specialize (Hmk Hacq H). destruct o; auto. destruct r; auto. discriminate. }
+  split; [|split].
+  - (* excl *)
+    intros Hb. assert (bad s = false) as Hb0 by (rewrite Hbad in Hb; apply orb_false_iff in Hb; tauto).
+    specialize (Hex Hb0). intros c' x' g Hx' Ha' He'. rewrite Hcs in Hx'.
+    destruct (sem_cases c (ngen s) st (fs s) o (fs s') r Hsem) as [(-> & -> & Hf & Hf')|[(-> & -> & [d Hf] & Hf')|(Hnc & Hnr & Hsd)]].
+    + apply nth_set_nth in Hx' as [[<- ->]|[Hne Hx']].
+      * rewrite Heng in He'. inversion He'; subst. rewrite Hf'. eexists; split; [reflexivity|]. simpl; auto.
+      * destruct (Hex c' x' g Hx' Ha' He') as (d & Hd & _). congruence.
+    + exfalso. rewrite Hbad in Hb. apply orb_false_iff in Hb as [_ Hb]. simpl in Hb.
+      apply nth_set_nth in Hx' as [[<- ->]|[Hne Hx']].
+      * rewrite Hal in Ha'. simpl in Heng. rewrite Heng in He'.
+        destruct (Hex c x g Hx Ha' He') as (d' & Hd' & Hg & Ho).
+        rewrite (live_owner_true (fs s) (cs s) _ _ _ _ Hd' Hg Ho Hx Ha' He') in Hb. discriminate.
+      * destruct (Hex c' x' g Hx' Ha' He') as (d' & Hd' & Hg & Ho).
+        rewrite (live_owner_true (fs s) (cs s) _ _ _ _ Hd' Hg Ho Hx' Ha' He') in Hb. discriminate.
+    + assert (exists x'', nth_error (cs s) c' = Some x'' /\ alive x'' = true /\ eng x'' = Some g) as (x'' & Hx'' & Ha'' & He'').
+      { apply nth_set_nth in Hx' as [[<- ->]|[Hne Hx']].
+        - exists x. rewrite Hal in Ha'. rewrite Heng, (eng_not_created o r _ _ _ Hnc) in He'. auto.
+        - exists x'. auto. }
+      destruct (Hex c' x'' g Hx'' Ha'' He'') as (d & Hd & Hg & Ho).
+      unfold same_dir in Hsd. rewrite Hd in Hsd. destruct (fs s') as [d'|]; [|contradiction].
+      destruct Hsd as [Hg' Ho']. exists d'. split; [reflexivity|]. split; congruence.
+  - (* holder_eng *)
+    intros c' x' Hx' Hh'. rewrite Hcs in Hx'. apply nth_set_nth in Hx' as [[<- ->]|[Hne Hx']]; [|eauto].
+    destruct Hho as [Hho|(_ & Hacq & Hret)].
+    + rewrite Hho in Hh'. specialize (Hhe c x Hx Hh'). rewrite Heng. destruct o; auto. destruct r; auto. discriminate.
+    + apply Hmk2; [|exact Hacq]. specialize (Hsafe r). rewrite Hret in Hsafe. inversion Hsafe; subst.
+      unfold Qof in *. rewrite Hacq in *. rewrite Hgh. auto.
+  - (* progs_safe *)
+    intros c' x' a' p' Hx' Hcur'. rewrite Hcs in Hx'. apply nth_set_nth in Hx' as [[<- ->]|[Hne Hx']]; [|eauto].
+    destruct Hcu as [Hcu|[Hcu|[Hcu Hacq]]]; rewrite Hcu in Hcur'; [discriminate| |]; inversion Hcur'; subst; clear Hcur'.
+    + split; [rewrite Hgh; apply Hsafe|auto].
+    + split; [apply safe_prog_of_acquire; exact Hacq|auto].
+Qed.
+
+Lemma Inv_other s it s' ob : Inv s -> exec s it = Some (s', ob) -> (forall c st, it <> IStep c None st) -> Inv s'.
+Proof.
+  intros (Hex & Hhe & Hps) He Hnot.
+  destruct (exec_other_inv s it s' ob He Hnot) as (x & x2 & Hx & Hcs & Hbad & Hsd & Hov & Hcase).
+  set (c := item_c it) in *.
+  assert (alive x2 = true -> alive x = true) as Hal.
+  { destruct Hcase as [(a & _ & _ & _ & _ & Ha & _)|[(_ & _ & _ & Ha & _)|[(_ & _ & Ha & _)|(Ha & _)]]]; try congruence. }
+  assert (forall g, eng x2 = Some g -> eng x = Some g) as Hen.
+  { destruct Hcase as [(a & _ & _ & _ & _ & _ & _ & Ha & _)|[(_ & _ & _ & _ & _ & Ha & _)|[(_ & _ & _ & Ha & _)|(_ & Ha & _)]]]; congruence. }
+  split; [|split].
+  - intros Hb. rewrite Hbad in Hb. specialize (Hex Hb). intros c' x' g Hx' Ha' He'. rewrite Hcs in Hx'.
+    assert (exists x'', nth_error (cs s) c' = Some x'' /\ alive x'' = true /\ eng x'' = Some g) as (x'' & Hx'' & Ha'' & He'').
+    { apply nth_set_nth in Hx' as [[<- ->]|[Hne Hx']]; [exists x; auto|exists x'; auto]. }
+    destruct (Hex c' x'' g Hx'' Ha'' He'') as (d & Hd & Hg & Ho).
+    unfold same_dir in Hsd. rewrite Hd in Hsd. destruct (fs s') as [d'|]; [|contradiction].
+    destruct Hsd as [Hg' Ho']. exists d'. split; [reflexivity|]. split; congruence.
+  - intros c' x' Hx' Hh'. rewrite Hcs in Hx'. apply nth_set_nth in Hx' as [[<- ->]|[Hne Hx']]; [|eauto].
+    destruct Hcase as [(a & _ & _ & _ & _ & _ & _ & _ & Hh & _)|[(_ & _ & _ & _ & _ & _ & Hh & _)|[(_ & _ & _ & Hee & Hh & _)|(_ & Hee & Hh & _)]]];
+      try congruence; rewrite Hee; apply (Hhe c x Hx); congruence.
+  - intros c' x' a' p' Hx' Hcur'. rewrite Hcs in Hx'. apply nth_set_nth in Hx' as [[<- ->]|[Hne Hx']]; [|eauto].
+    destruct Hcase as [(a & _ & Hacq & _ & _ & _ & _ & _ & _ & Hc & Hg)|[(_ & _ & _ & _ & _ & _ & _ & Hc & Hg)|[(_ & _ & _ & _ & _ & Hc & _)|(_ & Hee & _ & Hc & Hg)]]].
+    + rewrite Hc in Hcur'. inversion Hcur'; subst. rewrite Hg. split; [apply safe_prog_of_acquire; exact Hacq|simpl; discriminate].
+    + rewrite Hc in Hcur'. inversion Hcur'; subst. rewrite Hg. split; [apply safe_prog_of_unlock; reflexivity|simpl; discriminate].
+    + congruence.
+    + rewrite Hc in Hcur'. rewrite Hg, Hee. apply (Hps c x a' p' Hx Hcur').
+Qed.
+
+Lemma Inv_exec s it s' ob : Inv s -> exec s it = Some (s', ob) -> Inv s'.
+Proof.
+  intros HI He. destruct it as [c a|c [k|] st|c].
+  - eapply Inv_other; eauto. discriminate.
+  - eapply Inv_other; eauto. discriminate.
+  - eapply Inv_mstep; eauto. eapply exec_main_inv; eauto.
+  - eapply Inv_other; eauto. discriminate.
+Qed.
+
+Lemma run_inv (P : state -> Prop) :
+  (forall s it s' ob, P s -> exec s it = Some (s', ob) -> P s') ->
+  forall its s s' os, P s -> run s its = Some (s', os) -> P s'.
+Proof.
+  intros Hstep. induction its as [|it r IH]; intros s s' os HP H; simpl in H.
+  - inversion H; subst; auto.
+  - destruct (exec s it) as [[s1 o]|] eqn:E; [|discriminate].
+    destruct (run s1 r) as [[s2 os2]|] eqn:R; [|discriminate]. inversion H; subst. eauto.
+Qed.
+
+Lemma init_nth ovrs c x : nth_error (cs (init ovrs)) c = Some x -> exists o, x = init_c o.
+Proof. simpl. intros H. apply nth_error_In, in_map_iff in H as (o & <- & _). eauto. Qed.
+
+Lemma Inv_init ovrs : Inv (init ovrs).
+Proof.
+  split; [|split].
+  - intros _ c x g Hx _ He. apply init_nth in Hx as [o ->]. discriminate.
+  - intros c x Hx Hh. apply init_nth in Hx as [o ->]. discriminate.
+  - intros c x a p Hx Hc. apply init_nth in Hx as [o ->]. discriminate.
+Qed.
+
+Lemma Inv_run ovrs its s os : run (init ovrs) its = Some (s, os) -> Inv s.
+Proof. intros H. eapply (run_inv Inv Inv_exec); [apply Inv_init|exact H]. Qed.
+
+(* at most one live holder, from [excl] *)
+Lemma excl_holders s : excl s -> holder_eng s -> live_holders s <= 1.
+Proof.
+  intros Hex Hhe. unfold live_holders. apply filter_le1. intros i j x y Hi Hj Hx Hy.
+  apply andb_true_iff in Hx as [Hhx Hax]. apply andb_true_iff in Hy as [Hhy Hay].
+  destruct (eng x) as [g|] eqn:Ex; [|exfalso; eapply (Hhe i x); eauto].
+  destruct (eng y) as [g'|] eqn:Ey; [|exfalso; eapply (Hhe j y); eauto].
+  destruct (Hex i x g Hi Hax Ex) as (d & Hd & _ & Ho). destruct (Hex j y g' Hj Hay Ey) as (d' & Hd' & _ & Ho'). congruence.
+Qed.
+
+Lemma mkdir_exclusive_l ovrs its s os :
+  run (init ovrs) its = Some (s, os) -> bad s = false -> live_holders s <= 1.
+Proof. intros H Hb. destruct (Inv_run ovrs its s os H) as (Hex & Hhe & _). apply excl_holders; auto. Qed.
+
+(* ---------- the full statement is false of the faithful model: K1 and K2 ---------- *)
+From GU Require Import C01.Witness.
+
+Lemma refuted_K1_l : exists ovrs its s,
+  final ovrs its = Some s /\ respects_oracle (init ovrs) its = true /\
+  forallb (fun it => match it with IStep _ _ true => false | _ => true end) its = true /\   (* no stale verdict at all *)
+  forallb (fun it => match it with IKill _ => false | _ => true end) its = true /\          (* nobody dies *)
+  2 <= live_holders s /\ bad s = true.
+Proof. exists k1_ovr, (map item_of k1_entries). eexists. vm_compute. repeat split; auto. Qed.
+
+Lemma refuted_K2_l : exists ovrs its s,
+  final ovrs its = Some s /\ respects_oracle (init ovrs) its = true /\
+  2 <= live_holders s /\ bad s = true.
+Proof. exists k2_ovr, (map item_of k2_entries). eexists. vm_compute. repeat split; auto. Qed.
+
+(* K1b: the holder begins to unlock (its heartbeat stops), an overriding contender takes the silent lock over, the slow
+   Unlock then removes the taker's directory.  The oracle is respected: the stale verdict is given after the holder
+   has begun to release. *)
+Lemma refuted_K1b_l : exists ovrs its s,
+  final ovrs its = Some s /\ respects_oracle (init ovrs) its = true /\
+  forallb (fun it => match it with IKill _ => false | _ => true end) its = true /\
+  2 <= live_holders s /\ bad s = true.
+Proof. exists k1b_ovr, (map item_of k1b_entries). eexists. vm_compute. repeat split; auto. Qed.
